@@ -217,6 +217,8 @@ class Run:
             "energies": [(type(e).__name__, float(e)) for e in s.energies],
             "grad": None if s.gradient is None else np.array(s.gradient, dtype=float).copy(),
             "hess": None if s.hessian is None else np.array(s.hessian, dtype=float).copy(),
+            "units": (None if s.gradient is None else s.gradient.units.name,
+                      None if s.hessian is None else s.hessian.units.name),
             "edges": sorted(tuple(sorted(e)) for e in s.graph.edges) if s._graph is not None else None,
             "mult": s.mult, "charge": s.charge,
         }
@@ -266,6 +268,11 @@ class Run:
             return term, "ok", (lambda: setattr(s, "energy", e if op["some"] else None))
         if k == "grad":
             m = op["mode"]
+            if m == "inst":
+                from autode.values import Gradient
+                u = Gradient.implemented_units[op["unit"] % len(Gradient.implemented_units)]
+                return (f"SetGrad (GArr [{n};3])", "ok",
+                        (lambda: setattr(s, "gradient", Gradient(g * float(u.times), units=u))))
             if m == "ok2d":
                 return f"SetGrad (GArr [{n};3])", "ok", (lambda: setattr(s, "gradient", g.copy()))
             if m == "okflat":
@@ -279,6 +286,12 @@ class Run:
             return "SetGrad GOther", "ValueError", (lambda: setattr(s, "gradient", g.tolist()))
         if k == "hess":
             m = op["mode"]
+            if m == "inst":
+                from autode.hessians import Hessian
+                u = Hessian.implemented_units[op["unit"] % len(Hessian.implemented_units)]
+                # a Hessian OBJECT in unit u (stored by reference by the setter, atoms attached by it)
+                return (f"SetHess (HArr [{3 * n};{3 * n}])", "ok",
+                        (lambda: setattr(s, "hessian", Hessian(h * float(u.times), units=u))))
             if m == "ok":
                 return f"SetHess (HArr [{3 * n};{3 * n}])", "ok", (lambda: setattr(s, "hessian", h.copy()))
             if m == "none":
@@ -317,8 +330,12 @@ class Run:
             val = new if op.get("as", "array") == "array" else (new.tolist() if op["as"] == "list" else new.ravel())
             return f"SetCoords {n} {coq_bool(big)} {coq_bool(pure)}", "ok", (lambda: setattr(s, "coordinates", val))
         if k == "atoms":
-            if op["mode"] == "replace":
+            if op["mode"] in ("replace", "permuted"):
                 labs, xyz = op["labels"], op["xyz"]
+                if xyz == "same":      # the very same positions row by row, only the elements are assigned differently
+                    xyz = self.coords().tolist()
+                elif op["mode"] == "permuted":
+                    xyz = (self.coords() + np.asarray(op["xyz"], dtype=float)[:n]).tolist()
                 # different labels (or count): the oracle bits are not read by the model
                 return (f"SetAtoms {nat_list([Z[l] for l in labs])} T F", "ok",
                         (lambda: setattr(s, "atoms", [Atom(l, *c) for l, c in zip(labs, xyz)])))
@@ -363,10 +380,14 @@ class Run:
         if k == "thermo":
             return "Thermo", "ok", (lambda: s.calc_thermo())
         if k == "mult":
-            v = op["v"]
-            if isinstance(v, int):
-                return f"SetMult (Some ({v})%Z)", ("ok" if v > 0 else "ValueError"), (lambda: setattr(s, "mult", v))
-            return "SetMult None", "ValueError", (lambda: setattr(s, "mult", v))
+            v = mult_value(op["v"])
+            try:
+                z = int(v)          # species.py:182 `int(value) > 0`, then `self._mult = int(value)`
+            except (ValueError, TypeError):
+                return "SetMult None", "ValueError", (lambda: setattr(s, "mult", v))
+            # documented: a non-zero positive integer.  A value whose integer part is not positive must be rejected
+            # (0.5, 0.999, Fraction(1, 2) ... would otherwise be stored as multiplicity 0).
+            return f"SetMult (Some ({z})%Z)", ("ok" if z > 0 else "ValueError"), (lambda: setattr(s, "mult", v))
         if k == "graph":
             ed = op["edges"]
             return f"SetGraph {edge_list(ed)}", "ok", (lambda: setattr(s, "graph", self.mk_graph(self.labels(), ed)))
@@ -398,14 +419,16 @@ class Run:
                                          f"current geometry gives {want!r}")
                         ef = False
         gr, he = s.gradient, s.hessian
-        gf = True if gr is None else (np.asarray(gr).shape == g.shape and bool(np.allclose(np.asarray(gr, dtype=float), g, rtol=TOL, atol=TOL)))
-        hf = True if he is None else (np.asarray(he).shape == h.shape and bool(np.allclose(np.asarray(he, dtype=float), h, rtol=TOL, atol=TOL)))
+        gb = None if gr is None else base_arr(gr)
+        hb = None if he is None else base_arr(he)
+        gf = True if gr is None else (gb.shape == g.shape and bool(np.allclose(gb, g, rtol=TOL, atol=TOL)))
+        hf = True if he is None else (hb.shape == h.shape and bool(np.allclose(hb, h, rtol=TOL, atol=TOL)))
         if not gf and self.was["gf"]:
             self.finding(f"{site}|stale-gradient", f"after {op['k']} the reported gradient differs from dE/dx at the current "
-                         f"geometry by {float(np.abs(np.asarray(gr, dtype=float) - g).max()) if np.asarray(gr).shape == g.shape else 'shape'}")
+                         f"geometry by {float(np.abs(gb - g).max()) if gb.shape == g.shape else 'shape'} Ha/A (stored in {gr.units.name})")
         if not hf and self.was["hf"]:
             self.finding(f"{site}|stale-hessian", f"after {op['k']} the reported Hessian differs from d2E/dx2 at the current "
-                         f"geometry by {float(np.abs(np.asarray(he, dtype=float) - h).max()) if np.asarray(he).shape == h.shape else 'shape'}")
+                         f"geometry by {float(np.abs(hb - h).max()) if hb.shape == h.shape else 'shape'} Ha/A^2 (stored in {he.units.name})")
         self.was = {"ef": ef, "gf": gf, "hf": hf}
         df = True
         if op["k"] == "query" and op["q"] == "freq" and err == 0 and self.qres is not None:
@@ -522,7 +545,7 @@ class Run:
                 for i in range(len(pre_ident)):
                     if not np.allclose(xn[mp[i]], pre["coords"][i], atol=1e-12):
                         self.finding("Species.reorder_atoms|coordinates-not-permuted", f"atom {i} -> {mp[i]}")
-            elif op["k"] == "atoms" and op["mode"] == "replace" and op["labels"] != pre["labels"]:
+            elif op["k"] == "atoms" and op["mode"] in ("replace", "permuted") and op["labels"] != pre["labels"]:
                 self.ident = list(range(self.next_id, self.next_id + len(op["labels"])))
                 self.next_id += len(op["labels"])
         # documented error classes
@@ -542,13 +565,18 @@ class Run:
             return None
         ob = self.observe(op, err)
         post = self.snapshot()
+        if op["k"] == "mult" and err == 0 and expect == "ok" and int(self.s.mult) != int(mult_value(op["v"])):
+            self.finding(f"{site}|wrong-value-stored", f"{op}: mult is {self.s.mult}")
+        if int(self.s.mult) <= 0:
+            self.finding(f"{site}|non-positive-multiplicity-stored", f"after {op} the species has mult = {self.s.mult}")
         # a rejected operation leaves the species alone (results may only be DISCARDED, never altered)
         if err != 0:
             diff = self.snap_diff(pre, post)
             if expect == "AssertionError":
-                diff = [d for d in diff if d not in ("energies", "grad", "hess")
+                diff = [d for d in diff if d not in ("energies", "grad", "hess", "units")
                         or {"energies": post["energies"] != [], "grad": post["grad"] is not None,
-                            "hess": post["hess"] is not None}[d]]
+                            "hess": post["hess"] is not None,
+                            "units": post["grad"] is not None or post["hess"] is not None}[d]]
             if diff:
                 self.finding(f"{site}|state-changed-on-error", f"{op} raised {type(exc).__name__} but changed {diff}")
         # rigid-body motions keep the energies
@@ -565,7 +593,10 @@ class Run:
                 if float(np.abs(sh - want).max()) > 1e-9:
                     self.finding(f"{site}|wrong-shift", f"{op}: atoms moved by {sh.tolist()}, requested {want.tolist()}")
         # non-rigid change must discard
-        if err == 0 and ((op["k"] in ("coords", "atoms") and op.get("mode") in ("distort", "replace"))):
+        if err == 0 and op["k"] == "atoms" and op.get("mode") in ("replace", "permuted") and self.labels() != op["labels"]:
+            self.finding(f"{site}|atoms-not-assigned", f"{op}: the species now has atoms {self.labels()}, "
+                         f"assigned were {op['labels']}")
+        if err == 0 and ((op["k"] in ("coords", "atoms") and op.get("mode") in ("distort", "replace", "permuted"))):
             if ob["e"] or ob["g"] or ob["h"]:
                 self.finding(f"{site}|results-kept-after-geometry-change", f"{op}: energies/gradient/Hessian present = "
                              f"{ob['e']}/{ob['g']}/{ob['h']} after a non-rigid change")
@@ -604,6 +635,31 @@ class Run:
 
     def coq_term(self):
         return f"check_trace {self.init_term} [" + "; ".join(f"({o}, {b})" for o, b in self.trace) + "]"
+
+
+def base_arr(v):
+    """a stored Gradient/Hessian as plain floats in the default units (Ha/A, Ha/A^2), converted with the unit's own
+    declared factor (not with .to(), which is code under test)"""
+    a = np.asarray(v, dtype=float)
+    u = getattr(v, "units", None)
+    f = float(getattr(u, "times", 1.0)) if u is not None else 1.0
+    return a / f
+
+
+def mult_value(v):
+    """JSON-able description -> the python object handed to the mult setter"""
+    if isinstance(v, list):
+        from fractions import Fraction
+        kind = v[0]
+        if kind == "np.float64":
+            return np.float64(v[1])
+        if kind == "np.int64":
+            return np.int64(v[1])
+        if kind == "Fraction":
+            return Fraction(v[1], v[2])
+        if kind == "bool":
+            return bool(v[1])
+    return v
 
 
 def dist_matrix(x):
@@ -648,6 +704,9 @@ def alphabet(n):
     ]
 
 
+MULT_VALUES = [1, 2, 3, 0, -1, -2, "abc", "x1", 0.5, 0.999, 1e-9, -0.5, 2.7, "3", "2.5", None,
+               ["np.float64", 0.25], ["np.float64", 3.0], ["np.int64", 2], ["np.int64", 0],
+               ["Fraction", 1, 2], ["Fraction", -3, 2], ["Fraction", 5, 2], ["bool", 0]]
 LOADED = [{"k": "energy", "some": True}, {"k": "grad", "mode": "ok2d"}, {"k": "hess", "mode": "ok"}]
 
 
@@ -672,8 +731,12 @@ def random_op(rng, run):
     if r < 0.09:
         return {"k": "energy", "some": rng.random() < 0.9}
     if r < 0.20:
+        if rng.random() < 0.25:
+            return {"k": "grad", "mode": "inst", "unit": rng.randrange(4)}
         return {"k": "grad", "mode": rng.choice(["ok2d", "ok2d", "okflat", "none", "bad", "bad1d", "list"])}
     if r < 0.31:
+        if rng.random() < 0.35:
+            return {"k": "hess", "mode": "inst", "unit": rng.randrange(5)}
         return {"k": "hess", "mode": rng.choice(["ok", "ok", "ok", "none", "bad", "bad1d", "badbig", "list"])}
     def far_atom():
         # an atom that is not at the origin (a zero vector neither translates nor defines an axis)
@@ -705,8 +768,18 @@ def random_op(rng, run):
         o.update({"mode": "distort", "delta": delta()} if rng.random() < 0.45 else rigid_mode())
         return o
     if r < 0.66:
-        if rng.random() < 0.35:
-            pool = [["N", "H", "F"], ["O", "H", "Cl"], ["C", "H", "F", "Cl"], ["S", "H", "F", "O"], ["O", "H", "F"]]
+        c0 = rng.random()
+        if c0 < 0.2:
+            # same composition, different element order (position-wise different labels => new atoms)
+            labs = run.labels()
+            for _ in range(8):
+                rng.shuffle(labs)
+                if labs != run.labels():
+                    return {"k": "atoms", "mode": "permuted", "labels": labs,
+                            "xyz": "same" if rng.random() < 0.5 else delta()}
+        if c0 < 0.5:
+            pool = [["N", "H", "F"], ["O", "H", "Cl"], ["C", "H", "F", "Cl"], ["S", "H", "F", "O"], ["O", "H", "F"],
+                    ["O", "H", "H"], ["C", "H", "H", "F"]]
             labs = rng.choice([p for p in pool if p != run.labels()])
             xyz = (np.array(BASE[len(labs)][1]) + np.array(delta())[:len(labs)]).round(4).tolist()
             return {"k": "atoms", "mode": "replace", "labels": labs, "xyz": xyz}
@@ -736,7 +809,7 @@ def random_op(rng, run):
     if r < 0.94:
         return {"k": "thermo"}
     if r < 0.98:
-        return {"k": "mult", "v": rng.choice([1, 2, 3, 0, -1, -2, "abc", "x1"])}
+        return {"k": "mult", "v": rng.choice(MULT_VALUES)}
     return {"k": "optimise", "delta": delta()}
 
 
@@ -1176,6 +1249,47 @@ def run(ctx):
                     r.n0 = n
                     runs.append(r)
                     account("self-aliased", r, f"{n}")
+    # 2b'. Hessian / gradient OBJECTS in every implemented unit through queries, copy, rotate, reorder, thermo
+    for n in (3, 4):
+        cyc = alphabet(n)[7]
+        for ui in range(5):
+            tail = [{"k": "query", "q": "freq"}, {"k": "query", "q": "freq"}, {"k": "copy"}, {"k": "query", "q": "freq"},
+                    {"k": "rotate", "axis": [1.0, 2.0, 3.0], "theta": 0.7}, {"k": "query", "q": "freq"}, cyc,
+                    {"k": "query", "q": "freq"}, {"k": "thermo"}, {"k": "translate", "v": [0.5, -0.25, 0.125]},
+                    {"k": "query", "q": "freq"}]
+            for pre in ([], [{"k": "energy", "some": True}, {"k": "grad", "mode": "inst", "unit": ui}]):
+                for tl in (tail, [{"k": "thermo"}] + tail[2:]):
+                    r = run_sequence(n, pre + [{"k": "hess", "mode": "inst", "unit": ui}] + tl)
+                    r.n0 = n
+                    runs.append(r)
+                    account("units", r, f"{n}-u{ui}")
+    # 2b''. every multiplicity input from a loaded species, and same-composition atom lists in another order
+    for n in (3, 4):
+        for v in MULT_VALUES:
+            r = run_sequence(n, LOADED + [{"k": "mult", "v": v}, {"k": "copy"}, {"k": "query", "q": "sn"}])
+            r.n0 = n
+            runs.append(r)
+            account("mult", r, f"{n}")
+        labs = BASE[n][0]
+        for perm in itertools.permutations(range(n)):
+            pl = [labs[i] for i in perm]
+            if pl == labs:
+                continue
+            for xyz in ("same", D3):
+                r = run_sequence(n, LOADED + [{"k": "atoms", "mode": "permuted", "labels": pl, "xyz": xyz},
+                                              {"k": "query", "q": "formula"}])
+                r.n0 = n
+                runs.append(r)
+                account("permuted-atoms", r, f"{n}")
+    for labs0, labs1 in ((["O", "H", "H"], ["H", "O", "H"]), (["O", "H", "H"], ["H", "H", "O"]),
+                         (["C", "H", "H", "F"], ["H", "C", "F", "H"])):
+        n = len(labs0)
+        for xyz in ("same", D3):
+            r = run_sequence(n, [{"k": "atoms", "mode": "replace", "labels": labs0, "xyz": BASE[n][1]}] + LOADED +
+                             [{"k": "atoms", "mode": "permuted", "labels": labs1, "xyz": xyz}, {"k": "query", "q": "formula"}])
+            r.n0 = n
+            runs.append(r)
+            account("permuted-atoms", r, f"{n}-rep")
     ctx.log(f"exhaustive sequences: {len(runs)} ({sum(len(r.steps) for r in runs)} steps), findings so far {len(findings)}")
     # 2b. random sequences
     nrand = 1200 if full else 120
@@ -1188,7 +1302,7 @@ def run(ctx):
         account("random", r, f"{n}-r{q}")
     ctx.log(f"random sequences: {len(rand_runs)} ({sum(len(r.steps) for r in rand_runs)} steps), findings so far {len(findings)}")
     # 3. aliasing probes on reached states
-    nal = 60 if full else 12
+    nal = 60 if full else 7
     for q, r in enumerate(rand_runs[:nal] + runs[-3:]):
         for key, what, rep in aliasing_probe(ctx, r, q):
             findings.append((key, what, {"kind": "aliasing", "n_atoms": r.n0, "ops": r.ops, **rep}))
